@@ -189,6 +189,17 @@ def build(cls, by_cls, rng, ints, thorough, depth=0):
                 a = list(base)
                 a[i] = x
                 add(a)
+    # classes with at most two register operands: ALL register tuples (16 x 16 is tiny), incl. the high
+    # registers and sp/lr/pc where the class accepts them; other operands at the base values
+    import itertools
+    ridx = [i for i, a in enumerate(syn.formal_arguments)
+            if isinstance(a._cls, type) and issubclass(a._cls, Register) and a._value_map is None]
+    if 1 <= len(ridx) <= 2:
+        for combo in itertools.product(*[pools[i] for i in ridx]):
+            a = list(bases[0])
+            for i, x in zip(ridx, combo):
+                a[i] = x
+            add(a)
     if thorough:
         for _ in range(40):
             add([rng.choice(p) for p in pools])
@@ -548,6 +559,8 @@ def check(ctx, only=None):
                     continue
                 insts = build(cls, by_cls, ctx.rng, ints, ctx.thorough)
                 limit = None if is_core(cls) else (400 if ctx.thorough else 40)
+                if isa in ("arm", "thumb") and limit is not None:
+                    limit = max(limit, 600)       # keeps the full register-pair grids of arm / thumb classes
                 if limit is not None and len(insts) > limit:
                     # non-core classes are sampled: the head (base tuples, first pool) plus a random rest
                     insts = insts[: limit // 2] + ctx.rng.sample(insts[limit // 2:], limit - limit // 2)
